@@ -80,6 +80,8 @@ func runC01(c *Ctx, r *Report) {
 		}
 		r.check(ok, "C01-R4-fill-progress", "fill", c.pos(fn.Pos()), "fill returns nil only when n > 0 bytes were delivered, otherwise the reader's error (or the limit error): loops around fill advance or terminate", "fill can return nil without having delivered bytes: the loops around it spin forever on a reader that returns (0, nil) or on exhausted data")
 	}
+	// the audited buffer-cursor invariant 0 <= i <= j <= len(buf) rests on who advances i and by how much
+	c10Counters(c, r)
 	// no recursion on the decode paths
 	c01NoRecursion(c, r, scope)
 }
